@@ -137,7 +137,7 @@ def gen_case(rng, gen_t, exact):
             e = gen_edit(rng, m2, gen_t)
             edits2.append(e)
             m2 = m2 + 1 if e[0] in ('append', 'insert') else max(0, m2 - 1) if e[0] == 'delete' else 0 if e[0] == 'clear' else m2
-    case = {'mode': rng.choice(['C', 'L']), 'init': init, 'edits': edits, 'edits2': edits2, 'form': rng.randrange(6),
+    case = {'mode': rng.choice(['C', 'L']), 'init': init, 'edits': edits, 'edits2': edits2, 'form': rng.randrange(90),
             'save_via': rng.choice(['node', 'doc']), 'nest': rng.choice([0, 0, 1, 2]), 'exact': exact,
             # a save that fails inside a child of the node (then repaired and repeated), in round 1 or 2
             'fault': rng.choice([0, 0, 0, 1, 2])}
@@ -237,7 +237,44 @@ def gen_float_transform(rng, tame=False):
         return [k, eye, interest, up]
 
 
+def near_identity(rng):
+    """a transform within 1e-9 .. 1e-5 of the identity"""
+    e = rng.choice([-1, 1]) * 10 ** rng.uniform(-9, -5)
+    k = rng.randrange(4)
+    if k == 0:
+        return ['scale', 1.0 + e, 1.0 + (e if rng.random() < 0.5 else 0.0), 1.0]
+    if k == 1:
+        v = [0.0, 0.0, 0.0]
+        v[rng.randrange(3)] = e
+        return ['translate'] + v
+    if k == 2:
+        ax = [0.0, 0.0, 0.0]
+        ax[rng.randrange(3)] = rng.choice([1.0, -1.0])
+        return ['rotate'] + ax + [e * 100]
+    m = [1.0, 0, 0, 0, 0, 1.0, 0, 0, 0, 0, 1.0, 0, 0, 0, 0, 1.0]
+    m[rng.randrange(12)] += e
+    return ['matrix', [float(x) for x in m]]
+
+
+def extreme_partner(rng):
+    big = rng.choice([-1, 1]) * 10 ** (rng.uniform(5, 9) if rng.random() < 0.7 else rng.uniform(-9, -5))
+    if rng.random() < 0.5:
+        return ['scale', big, big if rng.random() < 0.5 else 1.0, rng.choice([1.0, big])]
+    v = [0.0, 0.0, 0.0]
+    v[rng.randrange(3)] = big
+    return ['translate'] + v
+
+
 def gen_float_case(rng):
+    if rng.random() < 0.08:
+        # near-identity transforms composed with huge / tiny partners: nothing may be rounded away as "identity"
+        ts = [near_identity(rng), extreme_partner(rng)]
+        if rng.random() < 0.5:
+            ts.reverse()
+        if rng.random() < 0.4:
+            ts.insert(rng.randrange(3), rng.choice([near_identity(rng), extreme_partner(rng)]))
+        return {'mode': rng.choice(['C', 'L']), 'init': ts, 'edits': [], 'edits2': [], 'form': rng.randrange(90),
+                'save_via': rng.choice(['node', 'doc']), 'nest': rng.choice([0, 1, 2]), 'exact': False, 'fault': 0}
     if rng.random() < 0.03:
         # a long stack of rotations and small translations
         ts = []
@@ -248,12 +285,12 @@ def gen_float_case(rng):
             if t[0] == 'translate':
                 t = [t[0]] + [x / 10.0 for x in t[1:]]
             ts.append(t)
-        return {'mode': rng.choice(['C', 'L']), 'init': ts, 'edits': [], 'edits2': [], 'form': rng.randrange(6),
+        return {'mode': rng.choice(['C', 'L']), 'init': ts, 'edits': [], 'edits2': [], 'form': rng.randrange(90),
                 'save_via': rng.choice(['node', 'doc']), 'nest': rng.choice([0, 1, 2]), 'exact': False}
     if rng.random() < 0.4:
         # one transform alone, wide magnitudes
         t = gen_float_transform(rng)
-        return {'mode': rng.choice(['C', 'L']), 'init': [t], 'edits': [], 'edits2': [], 'form': rng.randrange(6),
+        return {'mode': rng.choice(['C', 'L']), 'init': [t], 'edits': [], 'edits2': [], 'form': rng.randrange(90),
                 'save_via': 'node', 'nest': 0, 'exact': False, 'fault': 0}
     return gen_case(rng, lambda r: gen_float_transform(r, tame=True), False)
 
